@@ -106,7 +106,7 @@ def apply_clauses(src, clauses):
             src = src.replace(c["old"], c["new"])
     toks = lex(src)
     edits = []
-    if all(c["op"] in ("rewrite", "rewrite_all", "replace_range", "rename", "before", "after", "tail", "after_stmt") for c in clauses):
+    if all(c["op"] in ("rewrite", "rewrite_all", "replace_range", "rename", "before", "after", "tail", "after_stmt", "attr") for c in clauses):
         fnk, body = -1, -1
     else:
         fnk, body = _fn_parts(src, toks)
@@ -227,6 +227,51 @@ def apply_clauses(src, clauses):
             bare = name.split(":")[0]
             edits.append((p, p, f"let {name} = "))
             edits.append((toks[k].start, toks[k].start, ";\n" + c["text"].rstrip() + f"\n{bare}\n"))
+        elif op == "attr":
+            edits.append((0, 0, c["text"].rstrip() + "\n"))
+        elif op == "abstract":
+            if body < 0:
+                raise LostAnchor("abstract on bodiless fn")
+            edits.append((0, 0, "#[verifier::external_body]\n"))
+            edits.append((toks[body].start, toks[toks[body].mate].end, "{ unimplemented!() }"))
+        elif op == "every_loop":
+            lines = c["text"].split("\n")
+            pre = [l.strip()[4:].strip() for l in lines if l.strip().startswith("pre:")]
+            inv = "\n".join(l for l in lines if not l.strip().startswith("pre:")).rstrip()
+            for n, (kw, bo) in enumerate(loops, 1):
+                first = kw
+                if kw >= 2 and toks[kw - 1].text == ":" and toks[kw - 2].kind == "life":
+                    first = kw - 2
+                if pre:
+                    if toks[first - 1].text not in ("{", "}", ";"):
+                        raise LostAnchor(f"every_loop: loop {n} is not in statement position")
+                    edits.append((toks[first].start, toks[first].start,
+                                  " ".join(pre).replace("$K", str(n)) + "\n"))
+                edits.append((toks[bo].start, toks[bo].start, "\n" + inv.replace("$K", str(n)) + "\n"))
+        elif op == "around_all":
+            # every statement containing the literal anchor gets <pre> before it and <post> after its `;`
+            # (zero occurrences are fine: the clause comes from a template shared by many functions)
+            pre, _, post = c["text"].partition("----\n")
+            a = c["anchor"]
+            p0 = src.find(a)
+            while p0 >= 0:
+                k0 = next((k for k, t in enumerate(toks) if t.start <= p0 < t.end), None)
+                if k0 is None:
+                    raise LostAnchor("around_all anchor not inside a token")
+                d = toks[k0].depth
+                b = k0
+                while b > 0 and not (toks[b - 1].depth <= d and toks[b - 1].text in (";", "{", "}")):
+                    b -= 1
+                e = k0
+                while e < len(toks) and not (toks[e].text == ";" and toks[e].depth == d):
+                    if toks[e].kind == "open":
+                        e = toks[e].mate
+                    e += 1
+                if e >= len(toks):
+                    raise LostAnchor("around_all: statement has no terminating `;`")
+                edits.append((toks[b].start, toks[b].start, pre.rstrip() + "\n"))
+                edits.append((toks[e].end, toks[e].end, "\n" + post.rstrip() + "\n"))
+                p0 = src.find(a, p0 + len(a))
         elif op == "body_start":
             if body < 0:
                 raise LostAnchor("body_start on bodiless fn")
